@@ -99,6 +99,7 @@ def run(ctx):
     # the distinguishing inputs of the old defect).  No source text is inspected.
     nF = nA = 0
     cov_contra = 0
+    csb_contra = 0
     for line in mout.split("\n"):
         if " corrF=" in line:
             _, kv0 = parse_kv_line(line)
@@ -143,6 +144,11 @@ def run(ctx):
         agg["changed_covers_hypotheses"][c] = agg["changed_covers_hypotheses"].get(c, 0) + 1
         if c == "ok" and kv["judge"] != "ok" and "stacks differ" in kv["judge"]:
             cov_contra += 1
+        pr = kv.get("prem", "?")
+        agg.setdefault("changed_sorted_bounded_premises", {})
+        agg["changed_sorted_bounded_premises"][pr] = agg["changed_sorted_bounded_premises"].get(pr, 0) + 1
+        if pr == "ok" and kv.get("concl") != "ok":
+            csb_contra += 1
         agg["matched_spans"] += int(kv.get("matched", "0") or 0)
         agg["add_calls"] += int(kv.get("calls", "0") or 0)
         if db > 0 or kv.get("rchg") == "1":
@@ -168,6 +174,9 @@ def run(ctx):
                           payload, fingerprint={"lang": lang, "corr": "shape"}, found_input=False)
     ctx.oblige("model:changed_covers-instance", cov_contra == 0 or corr_bad > 0,
                "%d cases with the hypotheses of changed_covers_partial true, port = implementation, and an uncovered differing byte (would contradict the theorem)" % cov_contra)
+    ctx.oblige("model:changed_sorted_bounded-instance", csb_contra == 0,
+               "%d cases with the premises of changed_sorted_bounded true (sized trees, entry inside both trees, fuel left) whose evaluated "
+               "conclusions (admissible + growing calls, forward spans, ranges inside the longer tree) are false" % csb_contra)
     ctx.oblige("corr:ranges-functions=C", f_bad == 0 and (f_cmp > 0 or bool(ctx.replay)), "%d/%d disagreements" % (f_bad, f_cmp))
     ctx.oblige("corr:treeChangedRanges=ts_tree_get_changed_ranges", corr_bad == 0, "%d disagreements" % corr_bad)
     ctx.coverage.update({
